@@ -42,7 +42,14 @@ def gen_plan(base_seed, i, tier):
             sim["par_mode"] = "process"
         elif u < 0.25:
             sim["par_mode"] = "inline"
-        ctxs.append({"perm": perm, "config": cfg, "sim": sim, "reuse": rng.random() < 0.15})
+        reuse = rng.random() < 0.25
+        ctx = {"perm": perm, "config": cfg, "sim": sim, "reuse": reuse}
+        if reuse:
+            # an earlier rebalance() call on the same Balancer object, over other rows / another order
+            warm = list(range(len(rows)))
+            rng.shuffle(warm)
+            ctx["warm"] = warm[: rng.randint(1, len(warm))]
+        ctxs.append(ctx)
     return {"property": "C06", "kind": "contexts", "rows": rows, "contexts": ctxs}
 
 
@@ -72,19 +79,26 @@ def execute(plan):
             runner.setup()
             bal = runner.make_balancer(ctx["config"])
         for rep in range(reps):
-            res = runner.run_once(spec, balancer=bal)
+            if reps == 2 and rep == 0 and ctx.get("warm"):
+                order_now = [rows_in[j] for j in ctx["warm"] if j < len(rows_in)]
+                refs_now = [refs[j] for j in ctx["warm"] if j < len(rows_in)]
+            else:
+                order_now, refs_now = order, order_refs
+            if not order_now:
+                continue
+            res = runner.run_once(dict(spec, rows=order_now), balancer=bal)
             out["runs"] += 1
             out["summary"].append(common.run_summary(res))
             rows = res["rows"]
             where = "context %d%s (batch_size=%s n_jobs=%s par_mode=%s)" % (
-                ci, " 2nd run on same Balancer" if rep else "", ctx["config"].get("batch_size"), ctx["config"].get("n_jobs"), ctx["sim"].get("par_mode", "auto"))
+                ci, (" 2nd call on the same Balancer" if rep else " 1st of two calls on one Balancer") if reps == 2 else "", ctx["config"].get("batch_size"), ctx["config"].get("n_jobs"), ctx["sim"].get("par_mode", "auto"))
             if rows is None:
                 vs.append(oracles.V("C06", "run_raised", str(res["exc"]), "%s raised %s: %s" % (where, res["exc"], res.get("exc_msg"))))
                 continue
-            if len(rows) != len(order):
-                vs.append(oracles.V("C06", "row_count", "count", "%s returned %d rows for %d inputs: %s" % (where, len(rows), len(order), order)))
+            if len(rows) != len(order_now):
+                vs.append(oracles.V("C06", "row_count", "count", "%s returned %d rows for %d inputs: %s" % (where, len(rows), len(order_now), order_now)))
                 continue
-            for inp, (ref, _), row in zip(order, order_refs, rows):
+            for inp, (ref, _), row in zip(order_now, refs_now, rows):
                 if ref is None:
                     continue
                 diff = oracles.rows_equal(row, ref)
@@ -95,8 +109,8 @@ def execute(plan):
                             "%s: %s differs from its solo result in %s: batch=%r solo=%r" % (where, inp, diff, {k: row[k] for k in diff}, {k: ref[k] for k in diff}),
                         )
                     )
-            if all(r[0] is not None for r in order_refs):
-                want = _sum_stats([r[1] for r in order_refs])
+            if all(r[0] is not None for r in refs_now):
+                want = _sum_stats([r[1] for r in refs_now])
                 got = res["stats"] or {}
                 bad = [k for k in sorted(set(want) | set(got)) if want.get(k, 0) != got.get(k, 0)]
                 if bad:
@@ -104,9 +118,9 @@ def execute(plan):
                         oracles.V("C06", "stats_not_additive", ",".join(bad), "%s: stats %r != sum of solo stats %r" % (where, got, want))
                     )
             bs = ctx["config"].get("batch_size")
-            group = len(order) if bs is None else min(bs, len(order))
+            group = len(order_now) if bs is None else min(bs, len(order_now))
             if group >= 2 and len({(r["solved"], r["solved_by"]) for r in rows}) >= 2:
-                nontriv.append("%016x" % H(order, ctx["config"], ctx["sim"].get("par_mode")))
+                nontriv.append("%016x" % H(order_now, ctx["config"], ctx["sim"].get("par_mode")))
     out["violations"] = vs
     out["nontrivial_many"] = nontriv
     out["nontrivial"] = nontriv[0] if nontriv else None
@@ -128,6 +142,8 @@ def shrink(plan):
             del p["rows"][j]
             for c in p["contexts"]:
                 c["perm"] = [k if k < j else k - 1 for k in c["perm"] if k != j]
+                if c.get("warm"):
+                    c["warm"] = [k if k < j else k - 1 for k in c["warm"] if k != j]
             yield p
     for ci, c in enumerate(ctxs):
         if c["perm"] != sorted(c["perm"]):
